@@ -120,6 +120,36 @@ func correspond(op, impl, what string, k *kase) {
 	corrQ = append(corrQ, corr{op: op, impl: impl, k: k, what: what})
 }
 
+// hookCorrespond: intermediate observables through the library's verification hooks (skipped when they are unavailable)
+//   tokens of the scanner, the parse tree, the expansion (as a set of sets: its order belongs to C13)
+func hookCorrespond(text string, k *kase, tokens, tree, expansion bool) {
+	if !hooksOn || len(text) > 3000 {
+		return
+	}
+	if tokens {
+		correspond("Z "+hx(text), hookScan(text), "token stream (scan hook): model vs implementation", k)
+	}
+	if tree {
+		correspond("Y "+hx(text), hookTree(text), "parse tree (parse hook): model vs implementation", k)
+	}
+	if expansion {
+		correspondNorm("A "+hx(text), hookExpand(text), "expansion into alternatives (expand hook), as a set of sets: model vs implementation", k, expansionSetNorm)
+	}
+}
+
+// expansionSetNorm: alternatives sorted, terms inside an alternative sorted, duplicates of alternatives kept
+func expansionSetNorm(s string) string {
+	if !strings.HasPrefix(s, "ok") {
+		return s
+	}
+	body := strings.TrimSpace(strings.TrimPrefix(s, "ok"))
+	alts := strings.Split(body, ";")
+	for i, a := range alts {
+		alts[i] = strings.Join(sortedCopy(strings.Split(a, ",")), ",")
+	}
+	return "ok " + strings.Join(sortedCopy(alts), ";")
+}
+
 func correspondNorm(op, impl, what string, k *kase, norm func(string) string) {
 	corrQ = append(corrQ, corr{op: op, impl: impl, k: k, what: what, norm: norm})
 }
